@@ -35,7 +35,18 @@
 #include <sys/mman.h>
 #include <sanitizer/asan_interface.h>
 
+/* console output of the code under test never reaches the protocol stream (see also the
+ * dup2 in the child) */
+int vf_console_puts(const char *s);
+int vf_console_putchar(int c);
+int vf_console_printf(const char *fmt, ...);
+#define puts vf_console_puts
+#define putchar vf_console_putchar
+#define printf vf_console_printf
 #include C11_SCHED_MFRAME_C
+#undef puts
+#undef putchar
+#undef printf
 
 #include <osmocom/core/msgb.h>
 #include <osmocom/bb/l1sched/prim.h>
@@ -464,6 +475,7 @@ int main(void)
 			close(po[0]);
 			close(pe[0]);
 			dup2(pe[1], 2);
+			dup2(pe[1], 1);		/* stdout of the code under test: not the protocol stream */
 			run_seq(line + 6, po[1]);
 			_exit(0);
 		}
